@@ -1,6 +1,7 @@
 #!/bin/sh
 # runs every claimed check on the unchanged tree (rewriting evidence) and validates MANIFEST + evidence
 cd "$(dirname "$0")/.."
+python3 tools/sync_serves.py >/dev/null
 python3 tools/mkmanifest.py >/dev/null
 ./check all "$@" 2>&1 | grep -E "^OK|UNDECIDED|VIOLATION|KNOWN-FINDING"
 python3-vt - <<'PY'
